@@ -100,6 +100,9 @@ class IndexCorrespondence:
                         )
 
             # these will be equal sized
+            if common_labels.__class__ is np.ndarray and common_labels.dtype == DTYPE_BOOL:
+                # Boolean labels: a list avoids being read as a Boolean selection (as above)
+                common_labels = common_labels.tolist()
             iloc_src = src_index._loc_to_iloc(common_labels)
             iloc_dst = dst_index._loc_to_iloc(common_labels)
 
